@@ -13,7 +13,8 @@ const vfWide = "0123456789012345678901234567890123456789012345678901234567890123
 
 // vfScenario builds a small table through one creation path and renders it in one format:
 // 0 core+csv, 1 csv.New+json, 2 texttable.New+markdown, 3 markdown.New+text, 4 auto utf8-light,
-// 5 auto none, 6 auto html, 7 html wrapper with a named template, 8 text table with a very wide column
+// 5 auto none, 6 auto html, 7 html wrapper with a named template, 8 text table with a very wide column,
+// 9 json of a table holding an item json cannot encode (fails part-way), 10 text table with non-ASCII text
 func vfScenario(sc int, a string) (string, bool) {
 	var t tabular.Table
 	switch sc {
@@ -33,16 +34,22 @@ func vfScenario(sc int, a string) (string, bool) {
 	t.AddRowItems(a, "x")
 	t.AddSeparator()
 	t.AddRowItems("y")
+	if sc == 9 {
+		t.AddRowItems(vfUnencodable{s: "bad"})
+	}
+	if sc == 10 {
+		t.AddRowItems("世界", "é")
+	}
 	var out string
 	var err error
 	switch sc {
 	case 0:
 		out, err = csv.Render(t)
-	case 1:
+	case 1, 9:
 		out, err = json.Render(t)
 	case 2:
 		out, err = markdown.Render(t)
-	case 3, 8:
+	case 3, 8, 10:
 		out, err = texttable.Render(t)
 	case 4:
 		out, err = Render(t, "utf8-light")
@@ -64,12 +71,12 @@ func vfScenario(sc int, a string) (string, bool) {
 func VerifC16_independent() {
 	a1 := vfString("a1", 1, vfTXT)
 	a2 := vfString("a2", 1, vfTXT)
-	s1 := vfChoice("scenario1", 9)
+	s1 := vfChoice("scenario1", 11)
 	s2 := 0
 	if vfTier() == 1 {
-		s2 = vfChoice("scenario2", 9)
+		s2 = vfChoice("scenario2", 11)
 	} else {
-		s2 = []int{3, 6, 7, 8}[vfChoice("scenario2", 4)]
+		s2 = []int{3, 6, 7, 8, 1}[vfChoice("scenario2", 5)]
 	}
 	var o1, o2 string
 	var e1, e2 bool
